@@ -344,6 +344,9 @@ def to_standard_triple(triple):
 
     eigenvalue = np.emath.sqrt(p3_t[..., 1] / p3_t[..., 0])
 
+    # the root is complex for some real triples
+    res = res.astype(np.result_type(res.dtype, eigenvalue.dtype))
+
     res[..., 0] *= eigenvalue
     res[..., 1] /= eigenvalue
 
